@@ -74,6 +74,12 @@ VARIANTS = [
     ("C05", "silent", LU, "jnp.abs(jnp.mean(res, axis=(-2, -1)) * int_length - 1) ** 2", "jnp.abs(jnp.mean(res.squeeze(-1), axis=-1) * int_length - 1) ** 2", 0),
     ("C14", "fire", DG, "            t_ = t.reshape(new.temporal_batch_size, 1, 1)\n            t_ = jnp.repeat(t_, dx.shape[-1], axis=2)", "            t_ = jnp.resize(t, (new.temporal_batch_size, 1, dx.shape[-1]))", 0),
     ("C14", "silent", DG, "            t_ = t.reshape(new.temporal_batch_size, 1, 1)\n            t_ = jnp.repeat(t_, dx.shape[-1], axis=2)", "            t_ = jnp.repeat(t.reshape(new.temporal_batch_size, 1), dx.shape[-1], axis=1).reshape(new.temporal_batch_size, 1, dx.shape[-1])", 0),
+    # well-meant additions (round 7)
+    ("C16", "fire", DG, "    if rar_parameters is not None:\n        # Default p is None.", "    if rar_parameters is not None:\n        if 0 < n_start <= 1:\n            n_start = max(1, int(round(n_start * n)))\n        # Default p is None.", 0),
+    ("C16", "silent", DG, "    if rar_parameters is not None:\n        # Default p is None.", "    if rar_parameters is not None:\n        if 0 < n_start < 1:\n            n_start = max(1, int(round(n_start * n)))\n        # Default p is None.", 0),
+    ("C06", "fire", DK, "    if isinstance(params, Params):\n        # start with a params object with True everywhere.", "    if isinstance(params, (Params, ParamsDict)) and not params.eq_params:\n        return type(params)(nn_params=True, eq_params=params.eq_params)\n    if isinstance(params, Params):\n        # start with a params object with True everywhere.", 0),
+    ("C10", "fire", SPINN, "            res = v_model(t=None, x=x)\n            return self.eval_nn(res)", "            res = v_model(t=None, x=x)\n            if self.d == 1:\n                return jnp.sum(res[:, 0], axis=-1, keepdims=True)\n            return self.eval_nn(res)", 0),
+    ("C10", "silent", SPINN, "            res = v_model(t=None, x=x)\n            return self.eval_nn(res)", "            res = v_model(t=None, x=x)\n            out = self.eval_nn(res)\n            return out", 0),
     # ---- C05
     ("C05", "fire", LU, "jnp.abs(jnp.mean(res, axis=(-2, -1)) * int_length - 1) ** 2", "jnp.abs(jnp.mean(res, axis=(-2, -1)) - 1) ** 2 * int_length", 0),
     ("C05", "fire", LU, "lambda x, params: initial_condition_fun(x) - u(jnp.zeros((1,)), x, params),", "lambda x, params: initial_condition_fun(x) - u(jnp.ones((1,)), x, params),", 0),
